@@ -78,12 +78,12 @@ CONTRACTS = [
              ensures=[('dateTtime', 'result == date_str(time.year, time.month, time.day) + "T" + '
                                     'time_str(time.hour, time.minute, time.second)')]),
     # ------------------------------------------------------------------ weekday arithmetic (C08, C09)
-    Contract('dt.this', DU + 'this', ['C08', 'C09'],
+    Contract('dt.this', DU + 'this', ['C08', 'C09'], returns=DateTime(1949, 2091),
              params=dict(from_date=DateTime(1950, 2090), day_of_week=Int(0, 7)),
              ensures=[('requested-weekday', 'result.isoweekday() == (day_of_week if day_of_week >= 1 else 7)'),
                       ('same-iso-week', 'monday_of(ordinal_of(result)) == monday_of(ordinal_of(from_date))'),
                       ('time-of-day-kept', 'sec_of_day(result) == sec_of_day(from_date)')]),
-    Contract('dt.next', DU + 'next', ['C08'],
+    Contract('dt.next', DU + 'next', ['C08'], returns=DateTime(1949, 2091),
              params=dict(from_date=DateTime(1950, 2090), day_of_week=Int(0, 7)),
              ensures=[('requested-weekday', 'result.isoweekday() == (day_of_week if day_of_week >= 1 else 7)'),
                       ('following-iso-week', 'monday_of(ordinal_of(result)) == monday_of(ordinal_of(from_date)) + 7'),
